@@ -4,6 +4,7 @@ E = "monkeytype/encoding.py"
 S = "monkeytype/db/sqlite.py"
 TR = "monkeytype/tracing.py"
 CF = "monkeytype/config.py"
+ST = "monkeytype/stubs.py"
 MUTANTS = {
     "c04_required_any": {
         "props": ["C04"],
@@ -267,5 +268,37 @@ MUTANTS = {
     "c03_repr_in_log": {
         "props": ["C03"],
         "edits": [(TR, "        typ = get_type(arg, max_typed_dict_size=self.max_typed_dict_size)\n        last_opcode", "        typ = get_type(arg, max_typed_dict_size=self.max_typed_dict_size)\n        logger.debug(\"returned %r\", arg) if arg else None\n        last_opcode")],
+    },
+    "c11_import_full_qualname": {
+        "props": ["C11"],
+        "edits": [(ST, '    return qualname.split(".")[0]', '    return qualname')],
+    },
+    "c11_nonetype_replace_removed": {
+        "props": ["C11"],
+        "edits": [(ST, '        rendered = rendered.replace("NoneType", "None")\n', '')],
+    },
+    "c11_io_rename_dropped": {
+        "props": ["C11"],
+        "edits": [(ST, '            if module == "_io":\n                module = module[1:]\n', '')],
+    },
+    "c11_typing_stripped_everywhere": {
+        "props": ["C11"],
+        "edits": [(ST, '        if getattr(typ, "__module__", None) == "typing":\n            rendered = rendered.replace("typing.", "")', '        rendered = rendered.replace("typing.", "")')],
+    },
+    "c11_substring_regress": {
+        "props": ["C11"],
+        "edits": [(ST, '        s = re.sub(r"(?<![\\w.])" + re.escape(module) + r"\\.", "", s)', '        s = s.replace(module + ".", "")')],
+    },
+    "c11_optional_dropped": {
+        "props": ["C11"],
+        "edits": [(ST, '            return "Optional[" + self.rewrite(elem_type) + "]"', '            return self.rewrite(elem_type)')],
+    },
+    "c11_td_nontotal_base_lost": {
+        "props": ["C11"],
+        "edits": [(ST, "            self._add_typed_dict_class_stub(\n                optional_fields, class_name, base_class_name, total=False\n            )", "            self._add_typed_dict_class_stub(\n                optional_fields, class_name, total=False\n            )")],
+    },
+    "c11_tuple_empty_render": {
+        "props": ["C11"],
+        "edits": [(ST, '        return ", ".join(elems) if elems else "()"', '        return ", ".join(elems) if elems else ""')],
     },
 }
